@@ -271,7 +271,18 @@ func extra12C13(c *Ctx) {
 		}
 		return true
 	})
-	c.Expect(rule, "constant arms of the switch over the number of components", nArms, 3)
+	if nArms == 0 {
+		// the same decision spelled as an if-chain: the arms are not judged, the list must still be read
+		c.OK(rule, f.Key()+" arms", c.Pos(f.Decl), "no switch over the number of components (other idiom); only the cut is judged")
+	}
+	nIdx := 0
+	ast.Inspect(f.Body, func(nd ast.Node) bool {
+		if ix, isIx := nd.(*ast.IndexExpr); isIx && isIdentOf(info, ix.X, parts) {
+			nIdx++
+		}
+		return true
+	})
+	c.Expect(rule, "reads of an element of the split list in ParseModelPath", nIdx, 1)
 }
 
 // ---------------------------------------------------------------------------------- C14
